@@ -30,6 +30,7 @@ def run(F, R, ctx):
     error_span_rule(F, R)
     reader_per_port_rule(F, R)
     symbol_write_rule(F, R)
+    escape_agreement_rule(F, R)
 
 
 def _run(F, R, ctx):
@@ -301,3 +302,60 @@ def symbol_write_rule(F, R):
            "the SymbolV arm of CycleDetector::format_with_cycles writes the symbol's name as it is: "
            "(write (string->symbol \"hello world\")) prints hello world, which reads back as two symbols; '|| prints "
            "nothing; (string->symbol \"1\") prints 1, which reads back as a number", fn.loc(), sample=True)
+
+
+# what Rust's generic escapers can put after a backslash (documented behaviour of core::char / core::str)
+RUST_ESCAPERS = {
+    "char::escape_debug / {:?} of a char": set("0trn'\"\\u"),
+    "char::escape_default": set("trn'\"\\u"),
+    "char::escape_unicode": set("u"),
+    "{:?} of a string": set("0trn\"\\u"),
+}
+
+
+def escape_agreement_rule(F, R):
+    R.rule("C12.q", "writer and reader agree on escapes (table agreement): wherever the external formatter "
+                    "(CycleDetector::format_with_cycles and the repository's helpers it calls) emits text produced by one of "
+                    "Rust's generic escapers — Debug formatting of a string or char, char::escape_debug / escape_default / "
+                    "escape_unicode handed to a format argument — every character that escaper can put after a backslash "
+                    "is one that Lexer::read_string_escape accepts (the characters of its match, read from the code). "
+                    "`\\'` for instance is produced by the char escapers and rejected by the lexer")
+    rse = F.one(r"^steel_parser::lexer::\{impl Lexer(<'a>)?\}::read_string_escape$")
+    sw = [b for b in rse.blocks if b["k"] == "switch" and not b["c"] and b["on"] == "char"]
+    if not sw:
+        raise CheckError("anchor lost: Lexer::read_string_escape has no match on the escape character")
+    top = max(sw, key=lambda b: len(b["targets"]))
+    accepted = set()
+    for v, _ in top["targets"]:
+        try:
+            accepted.add(chr(int(v)))
+        except ValueError:
+            pass
+    if len(accepted) < 8:
+        raise CheckError("C12.q: only %d escape characters found in Lexer::read_string_escape" % len(accepted))
+    fw = F.one(r"\{impl CycleDetector\}::format_with_cycles$")
+    n = 0
+    for i, cb in lib.deep_calls(F, fw, depth=2, crates=("steel::rvals::",)):
+        m = re.search(r"\{impl Argument\}::new_(\w+)$", cb["callee"])
+        if not m or not cb.get("targs"):
+            continue
+        how, ty = m.group(1), cb["targs"][0].lstrip("&")
+        kind = None
+        if re.match(r"EscapeDebug", ty) or (how == "debug" and ty == "char"):
+            kind = "char::escape_debug / {:?} of a char"
+        elif re.match(r"EscapeDefault", ty):
+            kind = "char::escape_default"
+        elif re.match(r"EscapeUnicode", ty):
+            kind = "char::escape_unicode"
+        elif how == "debug" and ty in ("SteelString", "str", "String", "Cow<str>", "Gc<String>"):
+            kind = "{:?} of a string"
+        if kind is None:
+            continue
+        n += 1
+        missing = sorted(RUST_ESCAPERS[kind] - accepted)
+        R.inst("C12.q", "formatter emits %s (format argument of type %s) / all its escapes are read back" % (kind, ty), not missing,
+               "the external formatter emits the output of %s (line %s), which can write a backslash followed by %s — "
+               "Lexer::read_string_escape has no case for that, so the written text is rejected by the reader (read "
+               "returns an error / eof instead of the datum)" % (kind, cb["line"], ", ".join(repr(c) for c in missing)),
+               fw.loc(cb["line"]), sample={"accepted_by_lexer": "".join(sorted(accepted))})
+    R.floor("C12.q", "generic escapers emitted by the external formatter", n, 1)
